@@ -90,6 +90,19 @@ def c10_twin(out, tier, seed):
             a = dict(h, idx=2 * i, ops=ops_prefix + [real])
             b = dict(h, idx=2 * i + 1, root=str(Path(base) / f"c{2 * i + 1}" / "p"), ops=ops_prefix + [dry, real])
             cases += [a, b]
+        # F22 regression: persist task whose dependency changed; dry run and real build both forced / unforced
+        for force in (True, False):
+            tp = {"id": 1, "module": 1, "deps": [101], "prods": [111], "mver": 0, "skip": False, "skipifs": [], "persist": True, "prio": 0,
+                  "marks": [], "attrs": [], "after_fn": [], "after_expr": None, "use_decorator": False}
+            tq = dict(tp, id=2, deps=[111], prods=[112], persist=False)
+            cfg = {"force": False, "dry_run": False, "max_failures": None, "expression": "", "marker_expression": "", "capture": "no"}
+            pre = [{"op": "set", "n": 101, "c": 5}, {"op": "build", "tasks": [tp, tq], "cfg": cfg, "faults": {}}, {"op": "set", "n": 101, "c": 6}]
+            real = {"op": "build", "tasks": [tp, tq], "cfg": dict(cfg, force=force), "faults": {}}
+            dry = {"op": "build", "tasks": [tp, tq], "cfg": dict(cfg, force=force, dry_run=True), "faults": {}}
+            k = len(cases)
+            cases += [{"idx": k, "root": str(Path(base) / f"c{k}" / "p"), "ops": pre + [real], "sources": [101]},
+                      {"idx": k + 1, "root": str(Path(base) / f"c{k + 1}" / "p"), "ops": pre + [dry, real], "sources": [101]}]
+            n += 1
         obs = EC.run_impl_histories(cases, hashseed=seed % 5)
     finally:
         shutil.rmtree(base, ignore_errors=True)
